@@ -7,7 +7,7 @@
    GenPart = "b"  databases (structured ones + NDb random subsets of the grid
                   per density class), each with NFind find queries, NPages page
                   walks and NFacet facet queries drawn from the whole query
-                  space (run expression from the 65 640 non-empty expressions x
+                  space (run expression: 1..3 items of the 40-item domain x
                   7^4 name choices x 7 x 4 pages); about half of the name
                   constraints are anchored at an entry of the database so that
                   non-empty results are frequent.
@@ -21,11 +21,12 @@ VARIABLE c
 vars == <<c>>
 
 Exprs3   == Exprs(3)
-NonEmpty == Exprs3 \ {<<>>}
 Pick(S)  == RandomElement(S)
+ItemSet  == {it \in Items : TRUE}                    \* enumerated once
+RndExpr(x) == [i \in 1..Pick(1..3) |-> Pick(ItemSet)]   \* a non-empty expression of the domain
 
 (* (parameterised: TLC evaluates zero-arity constant definitions once) *)
-RndRun(x) == IF Pick(1..3) = 1 THEN Absent ELSE [hasrun |-> TRUE, run |-> Pick(NonEmpty)]
+RndRun(x) == IF Pick(1..3) = 1 THEN Absent ELSE [hasrun |-> TRUE, run |-> RndExpr(x)]
 RndNames(d, x) ==
     LET r == Pick(1..8)
         n == NameOf(x, d)
@@ -55,9 +56,8 @@ DbCase(d) == [kind   |-> "b", db |-> d, bump |-> Pick(BOOLEAN), rev |-> Pick(BOO
 
 Init == c = [kind |-> "root"]
 Next == /\ c.kind = "root"
-        /\ c' \in IF GenPart = "a"
-                  THEN {[kind |-> "a", e |-> e] : e \in (IF NScrub = 0 THEN Exprs3 ELSE RandomSubset(NScrub, Exprs3))}
-                  ELSE {DbCase(d) : d \in GenDbs(NDb)}
+        /\ \/ GenPart \in {"a", "ab"} /\ c' \in {[kind |-> "a", e |-> e] : e \in (IF NScrub = 0 THEN Exprs3 ELSE RandomSubset(NScrub, Exprs3))}
+           \/ GenPart \in {"b", "ab"} /\ c' \in {DbCase(d) : d \in GenDbs(NDb)}
 Spec == Init /\ [][Next]_vars
 
 QJson(q) == [hasrun |-> q.hasrun, run |-> q.run, tg |-> q.tg, tk |-> q.tk, al |-> q.al, sv |-> q.sv]
